@@ -140,7 +140,13 @@ def run(ctx, F):
                     and h.argc == 2 and g.cfg.must_pass([c.bb]) and h not in per_obj:
                 per_obj.append(h)  # a private per-object method called for every swept object
     hits = [(cl, c) for cl in per_obj for c in live_calls(cl) if c.q == VO + "unset_vo_bit" and show(strip(cl.flow.arg_tree(c, 0))) == "arg2"]
-    ctx.judge(len(hits) == 1 and hits[0][0].cfg.must_pass([hits[0][1].bb]), R, "LOS clears the VO bit of every swept object", expected="unset_vo_bit(object) on every path of the per-object sweep closure", found=str(len(hits)),
+    # every per-object body that releases the object's pages also clears its VO bit, on every path (one body per sweep loop is fine)
+    rel_bodies = [cl for cl in per_obj if any(c.name in ("release_pages", "release_multiple_pages") for c in live_calls(cl))]
+    by_body = {}
+    for cl, c in hits:
+        by_body.setdefault(cl.q, []).append((cl, c))
+    oklos = bool(rel_bodies) and all(len(by_body.get(cl.q, [])) == 1 and cl.cfg.must_pass([by_body[cl.q][0][1].bb]) for cl in rel_bodies)
+    ctx.judge(oklos, R, "LOS clears the VO bit of every swept object", expected="unset_vo_bit(object) on every path of the per-object sweep closure", found=str(len(hits)),
               where=where(lsw), key=R + "|los")
     uv = [c for c in live_calls(mc) if c.q == VO + "unset_vo_bit"]
     okv = len(uv) == 1 and not only_loop_guards(mc, uv[0].bb)
